@@ -99,6 +99,11 @@ T = [
     ("fcb.hex4", "FCB", "$0005", "data", 1),
     ("fcb.bin16", "FCB", "%0000000000000101", "data", 1),
     ("fcb.neg", "FCB", "-1", "data", 1),
+    # lists with an empty entry (a trailing or doubled comma): accepted as they are today, an empty entry contributes no byte -
+    # a rejection would be as good; what counts here is that listing, symbols and image agree
+    ("fcb.trail", "FCB", "1,2,", "data", 2),
+    ("fdb.gap", "FDB", "$1234,,5", "data", 4),
+    ("fcb.lead", "FCB", ",7", "data", 1),
     ("fcc2", "FCC", '"AB"', "data", 2),
     ("fcc11", "FCC", "/HELLO WORLD/", "data", 11),
     ("rmb0", "RMB", "0", "data", 0),
